@@ -345,6 +345,26 @@ func c15SpecialList() []c15Special {
 			"甲.zn": "导入“丙”之点\n如何甲造？\n    输出（新建点：3、4）之和",
 			"丙.zn": "如何求和？\n    输入甲、乙\n    输出甲 + 乙 + 100\n定义点：\n    其和 = 0\n如何新建点？\n    输入甲、乙\n    其和 = （求和：甲、乙）",
 		}, zn.Canon(float64(107)), 0},
+		// imports are carried out one after the other: what the first one displays is displayed
+		// before the second one fails
+		{"working-import-then-missing", map[string]string{
+			"主.zn": "导入“甲”\n导入“无此”\n输出1",
+			"甲.zn": "（显示：“甲”）",
+		}, s("甲"), 60},
+		{"two-missing-imports-first-is-reported", map[string]string{
+			"主.zn": "导入“无甲”\n导入“无乙”\n输出1",
+		}, "", 60},
+		// a definition inside a method of an imported module belongs to the call: the method can be
+		// called again, and the module exports nothing new afterwards
+		{"nested-definition-in-imported-method-called-twice", map[string]string{
+			"主.zn": "导入“乙”\n（显示：（乙法：1））\n（显示：（乙法：2））\n输出1",
+			"乙.zn": "如何乙法？\n    输入甲\n    如何翻倍？\n        输入数\n        输出数 * 2\n    输出（翻倍：甲）",
+		}, zn.Canon(float64(2)) + " | " + zn.Canon(float64(4)), 0},
+		{"nested-definition-in-imported-method-not-exported", map[string]string{
+			"主.zn": "导入“丙”\n导入“乙”\n（显示：“main”）\n输出（翻倍：5）",
+			"丙.zn": "导入“乙”\n（显示：（乙法：1））",
+			"乙.zn": "如何乙法？\n    输入甲\n    如何翻倍？\n        输入数\n        输出数 * 2\n    输出（翻倍：甲）",
+		}, zn.Canon(float64(2)) + " | " + s("main"), 42},
 		{"diamond-runs-once", map[string]string{
 			"主.zn": "导入“甲”\n导入“乙”\n（显示：“main”）\n输出（甲法） + （乙法）",
 			"甲.zn": "导入“丙”\n（显示：“甲”）\n如何甲法？\n    输出（丙法）",
